@@ -42,6 +42,10 @@ RefNumbering(T) == LET s == LevelOrder(T) IN
 (* ---- C19 clauses ------------------------------------------------------ *)
 C19children(T, x, ans)  == ans = KidsSeq(T, x)
 C19terminals(T, x, ans) == ans = TokSeq(T, x)
+\* the helpers the ordered functions are built on: the same tokens in any order, each once; "has a child"
+C19termset(T, x, ans) == /\ {ans[k] : k \in 1..Len(ans)} = {TokSeq(T, x)[k] : k \in 1..Len(TokSeq(T, x))}
+                         /\ Len(ans) = Len(TokSeq(T, x))
+C19haskids(T, x, ans) == (ans = "T") <=> ~x.tok
 C19pre(T, x, ans) ==
   /\ NoDup(ans) /\ SeqToSet(ans) = {x} \cup Below(T, x)
   /\ \A i, j \in 1..Len(ans) : i < j => ~Dom(ans[j], ans[i])
